@@ -63,6 +63,8 @@ def _strings(alphabet: str, max_len: int) -> List[str]:
 CURATED_SHORT = [
     "a", "b", "ab", "a:b", "a:", ":a", "a;", "a b", "a_0", "a_1", "a:_0", "a_0:", "a_:0", "a__0", "a_00",
     "a_0_0", "a:_1", "b_0", "ab_0", "a:b_0", "a_", "_0", "0", "a:b:",
+    # several DIFFERENT illegal characters in one id (every kind has to go, not only the last one found)
+    "a:b;", "(a)", "a(b):", "a|b c",
 ]
 QUAD_POOL = ["a", "a_0", "a_1", "a:", "a:_0"]
 
@@ -97,6 +99,7 @@ LONG_POOL = [
     "contig12_abcdefghij",               # no word boundary after the number: position is used
     "contig12",
     "a:b", "ab", "a",
+    "plasmid(pSV1)", "gi|1234|seq:7", "ab:def;hijklmnopq", "ab(defgh)jklm:nopq",   # two or more kinds of illegal characters
 ]
 LONG_TRIPLE_POOL = [
     BASE17, "abcdefghijklmnopr", "abcdefgXijklmnopq", "ab:defghijklmnopq", "abcdefgh:jklmnopq",
@@ -108,7 +111,7 @@ LONG_TRIPLE_POOL = [
 ]
 NAME_IDS = ["ab", "a:b", BASE17, "abcdefghij_contig12"]
 NAME_NAMES = ["ab", "a:b", ":", BASE17, "abcdefghijklmnop", "ab:defghijklmnopq", "abcdefghijklmnop:",
-              "abcdefghij_contig12", "abcdef_contig123456", "NZ_ABCD01000079.1", "a b/c"]
+              "abcdefghij_contig12", "abcdef_contig123456", "NZ_ABCD01000079.1", "a b/c", "(a):b", "x|y;z w"]
 
 # ---- cds family -------------------------------------------------------------------------------
 CDS_LOCATIONS = [(0, 9, 1), (3, 12, 1), (30, 39, 1), (0, 9, -1)]
